@@ -629,8 +629,19 @@ def g_case(p, queries, fresh="qq"):
     idents = sorted({t.name for m in p.mods for t in m.tokens} | {"len", "__init__", "__call__", "staticmethod",
                                                                   "classmethod", "property"} | {m.name for m in p.flat})
     bi = [x for x in idents if x in BUILTINS]
-    qs = ";\n  ".join("{| q_mod := %d%%N; q_tok := %d%%N; q_kw := %s; q_obs := %s |}" % (
-        j, tid, "true" if kw else "false", g_obs(o)) for (j, tid, kw, o) in queries)
+    seen = set()
+    items = []
+    for (j, tid, kw, o) in queries:
+        # the alpha theorem is evaluated once per distinct change set (the tokens of one binding give the same one)
+        key = None
+        if not kw and o["kind"] == "changes":
+            key = (tuple(sorted((a, tuple(b)) for a, b in o["edits"].items())), tuple(o["moved"]))
+        ev = key is not None and key not in seen
+        if ev:
+            seen.add(key)
+        items.append("{| q_mod := %d%%N; q_tok := %d%%N; q_kw := %s; q_alpha := %s; q_obs := %s |}" % (
+            j, tid, "true" if kw else "false", "true" if ev else "false", g_obs(o)))
+    qs = ";\n  ".join(items)
     mods = ";\n  ".join(g_module(p, m) for m in p.flat)
     # interning must be complete before the numbers are printed
     sh = p.shared
